@@ -157,6 +157,38 @@ class C09(SessionProperty):
         return viols, stats, state_key(steps)
 
 
+class C11(SessionProperty):
+    """Edit histories on reference-laden documents (scopegen programs)."""
+
+    def generate(self, seed: int, tier: str) -> dict:
+        from . import scopegen
+
+        st = Streams(seed)
+        rng = st("c11")
+        g = scopegen.ScopeGen(st("doc"), seed % 800 + 100, max_wrappers=rng.choice([0, 1, 2, 3, 4]), cycles=False)
+        prog = g.program()
+        ops: list[dict] = []
+        tag = (seed % 800 + 100) * 1000 + 900
+        mode = rng.choice(["live", "restart", "mixed"])
+        for k in range(rng.randint(1, 4)):
+            if ops and (mode == "restart" or (mode == "mixed" and rng.random() < 0.4)):
+                ops.append({"op": "restart"})
+            tag += 1
+            probe = rng.choice(prog["probes"])
+            value = str(tag) if rng.random() < 0.8 else rng.choice(['"v%d"' % tag, "[ %d ]" % tag])
+            kind = "set" if rng.random() < 0.8 else "assign"
+            ops.append({"op": kind, "path": ".".join(probe), "value": value})
+        return {"prop": "C11", "engine": "session", "seed": seed, "tier": tier, "cfg": {}, "doc": prog["text"], "ops": ops}
+
+    def execute(self, case: dict):
+        steps = session.run_history(case["doc"], case["ops"])
+        counters: dict = {}
+        viols = session.oracle_c11(steps, counters)
+        stats = session_stats(case, steps)
+        stats.update(counters)
+        return viols, stats, state_key(steps)
+
+
 class C05(SessionProperty):
     def oracles(self, case, steps):
         return session.oracle_c05(steps)
@@ -172,13 +204,15 @@ class C08(SessionProperty):
         return session.oracle_c08(case["doc"], case["ops"], steps)
 
 
-from . import c15, clisim, damage, fsworld, laws, mapping  # noqa: E402
+from . import c15, clisim, damage, fsworld, laws, mapping, registry  # noqa: E402
 
 PROPERTIES: dict = {
     "C04": C04("C04", scoped_bias=0.2, fail=False),
     "C05": C05("C05", scoped_bias=0.2, fail=False),
     "C06": C06("C06", scoped_bias=0.2, fail=False),
     "C08": C08("C08", scoped_bias=0.2, fail=True),
+    "C10": registry.RegistryProperty(),
+    "C11": C11("C11"),
     "C14": mapping.MappingProperty(),
     "C07": damage.DamageProperty(),
     "C15": c15.C15Property(),
